@@ -63,7 +63,7 @@ def make_si(ctx, k, tag='', f0=193.0e12, spacing=50e9, baud=32e9, slot=None, fre
         kw.update(extra)
     if ctx.mode == 'sym':
         for key in ('roll_off', 'chromatic_dispersion', 'pmd', 'pdl', 'latency', 'delta_pdb_per_channel',
-                    'tx_osnr', 'tx_power'):
+                    'tx_osnr', 'tx_power', 'pch', 'signal_ratio', 'ase_ratio', 'nli_ratio'):
             kw[key] = np.asarray(kw[key], dtype=object)
     si = SpectralInformation(**kw)
     return si
